@@ -34,7 +34,10 @@ for d in sorted(glob.glob(V + '/seeded/*/')):
             r = subprocess.run([V + '/check', p], capture_output=True, text=True, cwd=V)
             v = [l for l in r.stdout.split('\n') if l.startswith('VIOLATION') or l.startswith('  failed obligation')]
             outs[p] = dict(rc=r.returncode, lines=v[:6], undecided=[l for l in r.stdout.split('\n') if l.startswith('UNDECIDED')][:4])
-            if r.returncode == 1:
+            if r.returncode == 1 and not v:
+                outs[p]['stderr'] = r.stderr[-600:]
+                print('!! check %s exited 1 without a VIOLATION line: %s' % (p, r.stderr[-600:]))
+            elif r.returncode == 1:
                 hits.append(p)
     finally:
         subprocess.run(['git', '-C', RP, 'checkout', '--', '.'])
